@@ -152,7 +152,7 @@ PROPS["C08"] = {
 PROPS["C09"] = {
     "module": "PropC09",
     "theorems": ["C09_restricted_verdict_agrees", "C09_restricted_run", "C09_probe_ignores_filters", "C09_missing_is_explained"],
-    "runs": [detect_run("C09", 200, 2500, maxq=4000, maxt=20000)],
+    "runs": [detect_run("C09", 600, 6000, maxq=4000, maxt=20000)],
     "search": {"level": "detect", "args": ["--focus", "C09", "--n", "800", "--max-len", "5000"]},
     "timeout": 1700,
     "rule": DETECT_RULE + "; focus C09: for every case every reported encoding is re-run alone (same settings, include=[E]) and "
@@ -166,13 +166,18 @@ PROPS["C09"] = {
 PROPS["C06"] = {
     "module": "PropC06",
     "theorems": ["C06_hints_first", "C06_first_qualifying_hint_wins", "C06_no_qualifying_hint_no_early_exit",
-                 "C06_early_exit_only_when_qualifying", "C06_only_hints_qualify", "C06_hints_not_similarity_keys"],
-    "runs": [detect_run("C06", 240, 2500, maxq=4000, maxt=20000)],
+                 "C06_early_exit_only_when_qualifying", "C06_only_hints_qualify", "C06_hints_not_similarity_keys",
+                 "C06_declared_zone", "C06_declared_sound", "C06_regex_pinned"],
+    "model_targets": ["Model/Declared.vo"],
+    "runs": [detect_run("C06", 240, 2500, maxq=6000, maxt=20000),
+             {"level": "declared", "args_quick": ["--n", "2500"], "args_thorough": ["--n", "60000"]}],
     "search": {"level": "detect", "args": ["--focus", "C06", "--n", "800", "--max-len", "5000"]},
     "rule": DETECT_RULE + "; focus C06: declaration x BOM x body generator (any label, three keywords, quoting, position around byte "
             "4096, fitting or contradicting the body); for every case the expected result is rebuilt from stand-alone probes of all 41 "
             "encodings with the hint rule and compared with the real result",
-    "assumptions": ["the `declared` oracle is utils::any_specified_encoding (regex engine not modelled); it is served by the real function in the correspondence"],
+    "assumptions": ["the declaration matcher is modelled concretely (Model/Declared.v) for this one expression; that the regex crate's "
+                    "leftmost-first semantics coincides with the greedy matcher on it (the three character classes are disjoint) is argued in "
+                    "the file header and validated by the `declared` correspondence, not proved against a regex semantics"],
     "trusted": [],
 }
 
